@@ -7,11 +7,11 @@ Statement-by-statement mirror of `ThroughputCalculator.calculate`, `calculate_ta
 (`RallyModel/Dbl.lean`): `a - b` on floats is `Dbl.fsub`, `total_count / interval` is
 `Dbl.fdiv (Dbl.ofNat total) interval`, `int(interval)` is `Dbl.ftrunc`; comparisons are exact.
 
-`fix : Bool` selects between the code as it is (`fix = false`: `current.unprocessed` is *not* reset
-before the carried-over samples are processed again, so a call that finishes no bucket appends them a
-second time) and the one-line repair (`fix = true`: `current.unprocessed = []` before the loop).
-`current` names the variant that mirrors the pinned code; the line-protocol driver and the
-correspondence check use `current` only.
+`fix : Bool`: `fix = true` is the code as it is now (`current.unprocessed = []` right after
+`current = self.task_stats[task]`, /repo commit d4fc0e7); `fix = false` is the code before that commit, kept
+only for the historical witness in `RallyProps/C06.lean` (the carried-over samples were appended a second time
+by a call that completed no bucket).  `current` names the variant that mirrors the code; the line-protocol
+driver and the correspondence check use `current`.
 -/
 namespace Throughput
 
@@ -24,7 +24,7 @@ structure TSample where
   unit : List Char     -- total_ops_unit
   normal : Bool        -- sample_type == SampleType.Normal (Warmup = 0 < Normal = 1)
   tput : Option Rat    -- throughput supplied by the runner (None = calculate)
-deriving Repr
+deriving Repr, DecidableEq
 
 /-- one returned tuple `(absolute_time, relative_time, sample_type, throughput, unit)` -/
 structure Out where
@@ -33,7 +33,7 @@ structure Out where
   normal : Bool
   value : Option Rat   -- `None` only when map_task_throughput copies a sample without throughput
   unit : List Char
-deriving Repr
+deriving Repr, DecidableEq
 
 /-- `ThroughputCalculator.TaskStats` -/
 structure TaskStats where
@@ -45,7 +45,7 @@ structure TaskStats where
   normal : Bool        -- sample_type
   hasSamples : Bool    -- has_samples_in_sample_type
   start : Rat          -- start_time
-deriving Repr
+deriving Repr, DecidableEq
 
 /-- Python `max(a, b)` on numbers: the first argument unless the second is strictly greater -/
 def pyMax (a b : Rat) : Rat := if a < b then b else a
@@ -118,12 +118,14 @@ def finalStep (cur : TaskStats) (count : Nat) (last : TSample) : TaskStats × Li
     (c, [mkOut last c])
   else (cur, [])
 
-/-- `calculate_task_throughput(task, current_samples, bucket_interval_secs)`, `first = current_samples[0]` -/
-def calcTaskThroughput (fix : Bool) (bi : Nat) (st : Option TaskStats) (first : TSample)
-    (cs : List TSample) : TaskStats × List Out :=
-  let cur0 := match st with
-    | some t => t
-    | none => TaskStats.init bi first
+/-- `self.task_stats[task]`, created from the first (earliest) sample of the call if the task is new -/
+def startState (bi : Nat) (st : Option TaskStats) (first : TSample) : TaskStats :=
+  match st with
+  | some t => t
+  | none => TaskStats.init bi first
+
+/-- body of `calculate_task_throughput` once `current = self.task_stats[task]` is known -/
+def processFrom (fix : Bool) (cur0 : TaskStats) (cs : List TSample) : TaskStats × List Out :=
   let cur := if fix then { cur0 with unprocessed := [] } else cur0
   let r := loop cur cur.total cs
   match cs.getLast? with
@@ -131,6 +133,11 @@ def calcTaskThroughput (fix : Bool) (bi : Nat) (st : Option TaskStats) (first : 
   | some last =>
     let f := finalStep r.1 r.2.1 last
     (f.1, r.2.2 ++ f.2)
+
+/-- `calculate_task_throughput(task, current_samples, bucket_interval_secs)`, `first = current_samples[0]` -/
+def calcTaskThroughput (fix : Bool) (bi : Nat) (st : Option TaskStats) (first : TSample)
+    (cs : List TSample) : TaskStats × List Out :=
+  processFrom fix (startState bi st first) cs
 
 /-- `map_task_throughput(current_samples)` -/
 def mapTaskThroughput (cs : List TSample) : List Out :=
@@ -165,8 +172,8 @@ def run (fix : Bool) (bi : Nat) : Option TaskStats → List (List TSample) → O
     let r2 := run fix bi r.1 bs
     (r2.1, r.2 :: r2.2)
 
-/-- the variant that mirrors the pinned code -/
-def current : Bool := false
+/-- the variant that mirrors the code (repaired by /repo commit d4fc0e7) -/
+def current : Bool := true
 
 /-! ## several tasks: `calculate(samples)` with the `task_stats` dictionary -/
 
@@ -201,5 +208,23 @@ def calcGroups (fix : Bool) (bi : Nat) (stats : List (Nat × TaskStats)) :
 def calculate (fix : Bool) (bi : Nat) (stats : List (Nat × TaskStats)) (samples : List (Nat × TSample)) :
     List (Nat × TaskStats) × List (Nat × List Out) :=
   calcGroups fix bi stats (groupByTask samples)
+
+/-- successive `calculate` calls on one calculator instance, all tasks -/
+def runAll (fix : Bool) (bi : Nat) : List (Nat × TaskStats) → List (List (Nat × TSample)) →
+    List (Nat × TaskStats) × List (List (Nat × List Out))
+  | stats, [] => (stats, [])
+  | stats, c :: cs =>
+    let r := calculate fix bi stats c
+    let r2 := runAll fix bi r.1 cs
+    (r2.1, r.2 :: r2.2)
+
+/-- the samples of task `k` in one call, in order -/
+def samplesOf (k : Nat) (samples : List (Nat × TSample)) : List TSample :=
+  (samples.filter (fun ks => ks.1 == k)).map (·.2)
+
+/-- the tuples returned for task `k` by one call (`[]` if the task is not in the returned dictionary) -/
+def outsOf (k : Nat) : List (Nat × List Out) → List Out
+  | [] => []
+  | (k', o) :: l => if k' = k then o else outsOf k l
 
 end Throughput
